@@ -6,6 +6,7 @@ use std::io::{BufWriter, Write};
 use std::panic::{catch_unwind, AssertUnwindSafe};
 
 pub mod gen;
+pub mod groups;
 pub mod dsgen;
 
 /// SplitMix64 — the only source of randomness; seeded from `--seed`.
